@@ -35,9 +35,12 @@ def fp_roundtrip(half_ulp_x, half_ulp_y, n_max_us, timeout_ms=60000):
 
 def l_fp():
     """L-FP: durations up to 100 julian years survive total_seconds() -> float -> timedelta(seconds=...)."""
-    hundred_y_us = 100 * 36525 * 86400 * 10**5   # 100 julian years in µs (3.15576e15 < 2**52)
+    hundred_y_us = 36525 * 86400 * 10**6   # 100 julian years in µs (3.15576e15 < 2**52)
     out = {"name": "L-FP", "claims": []}
     # seconds < 2**32: ulp(x) <= 2**-21, fractional product < 2**20: ulp <= 2**-33
+    # (the half-ulp below is only valid under that premise: beyond 2**33 s, about 272 years, a double no longer
+    #  resolves microseconds and the round trip really fails, e.g. N = 17200017096835073 µs)
+    assert hundred_y_us < 2**32 * 10**6, "L-FP premise: the duration bound must stay below 2**32 seconds"
     res, model, dt = fp_roundtrip(z3.RealVal(1) / 2**22, z3.RealVal(1) / 2**34, hundred_y_us)
     out["claims"].append({"what": "round trip is the identity for all N in [0, 100 julian years]", "query": "exists N: result != N",
                           "verdict": res, "expected": "unsat", "seconds": round(dt, 4)})
